@@ -79,7 +79,7 @@ impl ConfirmHistory {
         };
 
         let len = end_tick - start_tick + 1; // +1 because the range is inclusive.
-        let range = (1 << len) - 1; // Shift 1 to `len` and then decrement to get `len` of 1's.
+        let range = u64::MAX >> (u64::BITS - len); // `len` of 1's, the range can cover the whole mask.
         let offset = self.last_tick - end_tick;
         let mask = range << offset;
 
